@@ -140,6 +140,7 @@ class SymRepo(G.Repository):
         self.rejected = {}       # ref name -> z3 Bool (persistent per job)
         self.refused = []        # refs whose update the server refused on this path
         self.conflicts_taken = 0
+        self.conflict_queries = []   # content-keyed mode: (dst, head1, head2, conflicted?) per merge
         self.no_conflicts = False   # harness assumption: merges never conflict
         self.merge_mask = 0      # fresh atoms created by (conflict-free) merges
         self.differs_taken = 0
@@ -152,6 +153,13 @@ class SymRepo(G.Repository):
         # are functions of the *content* (closure without the commits created
         # by conflict-free merges), so that re-doing a merge or re-building the
         # same content in a later job gives the same answer
+        self.log_model = False    # history mode: `git log A..B` listed from the closures
+        self.fresh_parents = {}   # fresh atom -> parent tip terms (first parent first)
+        self.robot_name = 'robot'
+        self.model_clone = False  # history mode: run the real Repository.clone() (mirror cache)
+        self.cache = None
+        self.cache_tags = None
+        self.fetch_fault = None   # True / z3 Bool: the next refresh of the mirror cache fails
         self.content_keyed = False
         self.statusC = z3.Function('status_of_content', z3.BitVecSort(W), z3.IntSort())
         self.boundary = None     # f(repo, what): called before every push command
@@ -162,6 +170,11 @@ class SymRepo(G.Repository):
     # clone is the model's local ref table; like the real one it moves
     # cmd_directory into a sub-directory of the scratch directory.
     def clone(self):
+        if self.model_clone:
+            # the real clone(): its git commands (mirror cache under ~/.bert-e, working
+            # copy cloned from the cache, origin re-pointed and updated) are interpreted
+            # by _git_clone / _git_fetch / _git_remote below
+            return G.Repository.clone(self)
         self.oplog.append(['<clone>'])
         if self.tmp_directory:
             import os
@@ -232,6 +245,7 @@ class SymRepo(G.Repository):
         for p in parents:
             fa |= self.fresh_anc_of(p)
         self.fresh_anc[i] = fa
+        self.fresh_parents[i] = list(parents)
         return z3.IntVal(i)
 
     def fresh_anc_of(self, term):
@@ -261,6 +275,8 @@ class SymRepo(G.Repository):
         if isinstance(name, G.Branch):
             name = name.name
         name = str(name).strip("'")
+        if name.startswith('atom') and name[4:].isdigit():
+            return z3.IntVal(int(name[4:]))
         if name.startswith('origin/'):
             n = name[7:]
             if n in self.tracking:
@@ -358,10 +374,49 @@ class SymRepo(G.Repository):
     def _git_config(self, rest, kw):
         return ''
 
+    # -- the clone sequence of Repository.clone() (model_clone) -------------------------
+    def _git_clone(self, rest, kw):
+        import os
+        if rest[:1] != ['--mirror']:
+            raise HarnessError('clone form: %r' % (rest,))
+        if len(rest) == 2:
+            # first job on this machine: create the mirror cache from the server
+            self.cache = dict(self.remote)
+            self.cache_tags = dict(self.remote_tags)
+            slug = self._url.split('/')[-1].replace('.git', '')
+            os.makedirs(os.path.join(kw.get('cwd') or '.', slug + '.git'), exist_ok=True)
+            return ''
+        if len(rest) == 3 and rest[2] == '.git':
+            # the working copy: a mirror of the *cache*: every head of the cache is a local branch
+            if self.cache is None:
+                raise HarnessError('working copy cloned from a cache that was never filled')
+            self.tip = dict(self.cache)
+            self.tracking = dict(self.cache)
+            self.tags = dict(self.cache_tags)
+            self.head = None
+            return ''
+        raise HarnessError('clone form: %r' % (rest,))
+
     def _git_fetch(self, rest, kw):
-        raise HarnessError('symgit: fetch not modelled')
+        if rest != ['--prune']:
+            raise HarnessError('symgit: fetch form %r not modelled' % (rest,))
+        # refresh of the mirror cache; may fail (network, stale lock) when the harness says so
+        fault = self.fetch_fault
+        if fault is not None and fault is not False:
+            failed = True if fault is True else self.ctx.decide(fault)
+            if failed:
+                self.fetch_fault = None
+                raise CommandError('fatal: unable to access the remote (cache refresh)')
+        self.cache = dict(self.remote)
+        self.cache_tags = dict(self.remote_tags)
+        return ''
 
     def _git_remote(self, rest, kw):
+        if rest[:2] == ['update', 'origin'] and self.model_clone:
+            # origin/* now follow the server; local branches are untouched
+            self.tracking = dict(self.remote)
+            for t, v in self.remote_tags.items():
+                self.tags.setdefault(t, v)
         return ''
 
     def _git_checkout(self, rest, kw):
@@ -430,9 +485,87 @@ class SymRepo(G.Repository):
         raise HarnessError('branch form: %r' % (rest,))
 
     def _git_log(self, rest, kw):
+        if self.log_model:
+            return self._log_listing(rest)
         if self.log_cut:
             return ''
         raise HarnessError('symgit (closure model): git log needs the explicit-DAG model')
+
+    # -- `git log A..B --pretty="%H %P"` on the closure model (history mode) -----------------
+    def alive_atoms(self):
+        return [i for i in range(self.N + self.nfresh_used) if i not in self.free_atoms]
+
+    def _bit(self, closure, i):
+        return self.ctx.decide(z3.Extract(i, i, closure) == 1)
+
+    def parents_of(self, i):
+        """Parents of commit i, first parent first.  A commit made during the run has the
+        parents it was given; a pre-existing commit has the maximal elements of its closure
+        (the repository symgit.realgit builds has exactly those, in index order)."""
+        if i >= self.N:
+            out = []
+            for t in self.fresh_parents.get(i, []):
+                t = z3.simplify(t) if z3.is_expr(t) else z3.IntVal(t)
+                out.append(t.as_long() if z3.is_int_value(t)
+                           else self.ctx.concretize_int(t, 0, self.N - 1))
+            res = []
+            for p in out:
+                if p not in res:
+                    res.append(p)
+            return res
+        strict = [j for j in range(self.N) if j != i and self._bit(self.anc[i], j)]
+        return [j for j in strict
+                if not any(k != j and self._bit(self.anc[k], j) for k in strict)]
+
+    def _log_listing(self, rest):
+        flags = [r for r in rest if r.startswith('--')]
+        pos = [r for r in rest if not r.startswith('--')]
+        no_merges = '--no-merges' in flags
+        for f in flags:
+            if f != '--no-merges' and not f.startswith('--pretty='):
+                raise HarnessError('git log flag %r' % f)
+        if len(pos) != 1 or '..' not in pos[0]:
+            raise HarnessError('git log form: %r' % (rest,))
+        a, b = pos[0].split('..')
+        A = self.cl(self.resolve(a))
+        Bc = self.cl(self.resolve(b))
+        listed = [i for i in self.alive_atoms() if self._bit(Bc, i) and not self._bit(A, i)]
+        # children before parents, as git lists them
+        def is_anc(j, i):          # j ancestor of i
+            return j != i and self._bit(self.anc[i], j)
+        order = []
+        remaining = list(listed)
+        while remaining:
+            for i in remaining:
+                if not any(is_anc(i, k) for k in remaining if k != i):
+                    order.append(i)
+                    remaining.remove(i)
+                    break
+            else:
+                raise HarnessError('git log: cyclic ancestry')
+        lines = []
+        for i in order:
+            ps = self.parents_of(i)
+            if no_merges and len(ps) > 1:
+                continue
+            lines.append(' '.join(['atom%d' % i] + ['atom%d' % p for p in ps]))
+        return ''.join(l + '\n' for l in lines)
+
+    def _git_show(self, rest, kw):
+        # `git show --pretty="%aN" <sha>`: author name (+ the patch for a non-merge commit)
+        pos = [r for r in rest if not r.startswith('--')]
+        if len(pos) != 1 or not str(pos[0]).startswith('atom'):
+            raise HarnessError('git show form: %r' % (rest,))
+        i = int(str(pos[0])[4:])
+        if i >= self.N and (self.merge_mask >> i) & 1:
+            return self.robot_name.encode() + b'\n'
+        return b'contributor\n\ndiff --git a/f b/f\n'
+
+    def _git_cat_file(self, rest, kw):
+        if rest[:1] != ['-p'] or not str(rest[1]).startswith('atom'):
+            raise HarnessError('git cat-file form: %r' % (rest,))
+        i = int(str(rest[1])[4:])
+        return ''.join('parent atom%d\n' % p for p in self.parents_of(i)) + 'author x\n'
 
     def _git_tag(self, rest, kw):
         if not rest:
@@ -511,9 +644,13 @@ class SymRepo(G.Repository):
             cf = self.conflictF(z3.simplify(D & keep), z3.simplify(c1 & keep), z3.simplify(c2 & keep))
         else:
             cf = self.conflictF(D, c1, c2)
-        if not self.no_conflicts and self.ctx.decide(cf):
-            self.conflicts_taken += 1
-            raise CommandError('CONFLICT (content)')
+        if not self.no_conflicts:
+            took = self.ctx.decide(cf)
+            if self.content_keyed:
+                self.conflict_queries.append((cf.arg(0), cf.arg(1), cf.arg(2), took))
+            if took:
+                self.conflicts_taken += 1
+                raise CommandError('CONFLICT (content)')
         u = D
         for k in red:
             u = u | C[k]
